@@ -957,3 +957,9 @@ fn validate_suback_properties(props: &Properties) -> Result<(), MqttError> {
 
     Ok(())
 }
+
+#[cfg(all(feature = "verif-hooks", kani))]
+#[allow(dead_code, unused)]
+pub(crate) mod verif_harness {
+    include!(concat!(env!("VERIF_HARNESS_DIR"), "/v5_suback_h.rs"));
+}
